@@ -45,6 +45,7 @@ theorem den_effect (t : Tree) : ∀ (v : Nat) (g : Tag) (w : World),
   | W id => intro v g w; simp [den, new, userEffect, run, emit_eq_emits]
   | H id => intro v g w; simp [den, new, userEffect, run, emit_eq_emits]
   | G id => intro v g w; simp [den, new, userEffect, run, emit_eq_emits]
+  | JM id x _ => intro v g w; simp [den, just, run]
   | FR t ih => intro v g w; simp [den, flatMap, doEffect, just, run, ih]
   | FL c t b iht ihb =>
     intro v g w
